@@ -109,8 +109,14 @@ def pr(t, idx=None):
     if t.op == "mod":
         a, w = pr(t.args[0], idx), pr(t.args[1], idx)
         return f"({a} - {w} * (⌊{a} / {w}⌋ : ℝ))"
-    if t.op == "gt":
-        return f"({pr(t.args[0], idx)} > {pr(t.args[1], idx)})"
+    if t.op in ("gt", "ge", "lt", "le"):
+        return f"({pr(t.args[0], idx)} {dict(gt='>', ge='≥', lt='<', le='≤')[t.op]} {pr(t.args[1], idx)})"
+    if t.op in ("and", "or"):
+        return f"({pr(t.args[0], idx)} {'∧' if t.op == 'and' else '∨'} {pr(t.args[1], idx)})"
+    if t.op == "not":
+        return f"(¬ {pr(t.args[0], idx)})"
+    if t.op == "ite":
+        return f"(if {pr(t.args[0], idx)} then {pr(t.args[1], idx)} else {pr(t.args[2], idx)})"
     if t.op == "call":
         args = " ".join((f"(fun k => {pr(x, 'k')})" if x.shape == "v" else pr(x, idx)) for x in t.args)
         if t.shape == "v":
@@ -119,6 +125,8 @@ def pr(t, idx=None):
     raise NotTranslatable(t.op)
 
 
+CMP_OPS = {ast.Gt: "gt", ast.GtE: "ge", ast.Lt: "lt", ast.LtE: "le"}
+PROP_OPS = ("gt", "ge", "lt", "le", "and", "or", "not")
 RECORDS = []
 IMPL = ["self.log_likelihood", "self.log_prior", "self.log_q", "self.beta"]
 KNOWN_CALLS = {
@@ -214,7 +222,7 @@ class Tr:
             return [self.e(x) for x in n.elts]
         if isinstance(n, ast.UnaryOp) and isinstance(n.op, ast.USub):
             return mk("neg", self.e(n.operand))
-        if isinstance(n, ast.BinOp):
+        if isinstance(n, ast.BinOp) and not isinstance(n.op, (ast.BitAnd, ast.BitOr)):
             a, b = self.e(n.left), self.e(n.right)
             op = {ast.Add: "add", ast.Sub: "sub", ast.Mult: "mul", ast.Div: "div", ast.Mod: "mod"}.get(type(n.op))
             if a is None or b is None:
@@ -231,8 +239,18 @@ class Tr:
                 t.val = b.val
                 return t
             raise NotTranslatable("binop " + type(n.op).__name__)
-        if isinstance(n, ast.Compare) and len(n.ops) == 1 and isinstance(n.ops[0], ast.Gt):
-            return mk("gt", self.e(n.left), self.e(n.comparators[0]))
+        if isinstance(n, ast.Compare) and len(n.ops) == 1 and type(n.ops[0]) in CMP_OPS:
+            return mk(CMP_OPS[type(n.ops[0])], self.e(n.left), self.e(n.comparators[0]))
+        if isinstance(n, ast.BinOp) and isinstance(n.op, (ast.BitAnd, ast.BitOr)):
+            a, b = self.e(n.left), self.e(n.right)
+            if a.op in PROP_OPS and b.op in PROP_OPS:
+                return mk("and" if isinstance(n.op, ast.BitAnd) else "or", a, b)
+            raise NotTranslatable("bitwise operator on non-boolean terms")
+        if isinstance(n, ast.UnaryOp) and isinstance(n.op, ast.Invert):
+            a = self.e(n.operand)
+            if a.op in PROP_OPS:
+                return mk("not", a)
+            raise NotTranslatable("~ on a non-boolean term")
         if isinstance(n, ast.IfExp):
             # `x if cond else nan` guards (mean_w != 0): keep the main branch, record the side condition
             self.dropped.append("conditional expression: kept `" + ast.unparse(n.body)[:40] + "` under side condition " + ast.unparse(n.test))
@@ -268,6 +286,8 @@ class Tr:
             return mk(base if base != "log" or f != "math.log" else "log", args[0])
         if is_ns and base == "divide":
             return mk("div", *args)
+        if is_ns and base == "where" and len(args) == 3 and args[0].op in PROP_OPS:
+            return mk("ite", *args)
         if is_ns and base == "ones":
             return T("ones")
         if is_ns and base == "zeros":
